@@ -1,6 +1,7 @@
 import NriModel.Lemmas.GenerateLift
 import NriModel.Lemmas.GenerateSpec
 import NriModel.Lemmas.GenerateRootfs
+import NriModel.Lemmas.GenerateOptions
 /-!
 Property C13 — applying a container adjustment to an OCI spec changes exactly what it names,
 deterministically.  Theorems about `Nri.Generate.adjust` (the model of `Generator.Adjust`,
@@ -929,6 +930,163 @@ theorem unfixed_annotations_order_dependent :
 theorem unfixed_args_marker :
     Args.applyUnfixed [str "old"] [[], str "a", str "b"] = [[], str "a", str "b"] ∧
     Args.apply [str "old"] [[], str "a", str "b"] = [str "a", str "b"] := by decide
+
+
+/-! ## The runtime's callbacks: `WithAnnotationFilter`, `WithResourceChecker`
+
+`adjustWith o ext s a` is `Generator.Adjust` of a generator built with the callbacks `o`
+(`NriModel/GenerateOptions.lean`).  Every theorem above is about `adjust`, the generator without
+callbacks; these theorems say how the two relate, so that "changes exactly what it names" carries
+over to a runtime that installs them: the filter decides WHICH annotation entries are applied (or
+refuses the adjustment before anything is touched), the checker has the last word on
+`Linux.Resources` and on nothing else. -/
+
+/-- Without callbacks `adjustWith` IS `adjust`. -/
+theorem C13_options_default (ext : Externals) (s : Spec) (a : Adjustment) :
+    adjustWith {} ext s a = liftGen (adjust ext s a) :=
+  adjustWith_default ext s a
+
+/-- A rejecting annotation filter fails the whole `Adjust` with its own error class — for every
+    spec, adjustment, external and checker. (It runs first: nothing of the spec has been touched.) -/
+theorem C13_annotation_filter_rejects (o : Options) (ext : Externals) (s : Spec) (a : Adjustment)
+    (f : AList Str Str → Except Unit (AList Str Str)) (hf : o.filterAnnotations = some f)
+    (he : f a.annotations = .error ()) :
+    adjustWith o ext s a = .error .annotationFilter :=
+  adjustWith_filter_error o ext s a f hf he
+
+/-- An accepting annotation filter changes WHICH annotation entries are applied and nothing else:
+    `Adjust` is `Adjust` of the generator without the filter on the adjustment whose annotations
+    are the filter's answer — so set-wins / removed / frame / determinism hold of the entries the
+    filter let through, and every other family is applied as if there were no filter. -/
+theorem C13_annotation_filter_factor (o : Options) (ext : Externals) (s : Spec) (a : Adjustment)
+    (f : AList Str Str → Except Unit (AList Str Str)) (hf : o.filterAnnotations = some f)
+    (ann : AList Str Str) (hk : f a.annotations = .ok ann) (hc : o.checkResources = none) :
+    adjustWith o ext s a = liftGen (adjust ext s { a with annotations := ann }) := by
+  rw [adjustWith_filter_ok o ext s a f hf ann hk]
+  exact adjustWith_plain { o with filterAnnotations := none } rfl hc ext s _
+
+/-- The checker is consulted only for an adjustment that carries a resources section. -/
+theorem C13_checker_only_with_resources (o : Options) (ext : Externals) (s : Spec) (a : Adjustment)
+    (hf : o.filterAnnotations = none) (hr : a.resources = none) :
+    adjustWith o ext s a = liftGen (adjust ext s a) ∧ checkerSees o ext s a = none := by
+  refine ⟨?_, ?_⟩
+  · rw [adjustWith_check_skipped o ext s a hr]
+    exact adjustWith_plain { o with checkResources := none } hf rfl ext s a
+  · unfold checkerSees
+    rw [filterStage_none o hf]
+    have hr' : ({ a with annotations := a.annotations } : Adjustment).resources = none := hr
+    simp only [hr']
+    cases adjustPre ext s a <;> rfl
+
+/-- With a resources section the checker runs exactly once, after this adjustment's CPU, memory,
+    hugepage, unified and pids values are in the spec (and annotations, env, args, hooks, CDI,
+    devices, cgroups path, OOM score before them), before block-I/O class, RDT class, mounts and
+    rlimits; its error fails `Adjust` with the checker's class; what it returns is what the rest
+    of `Adjust` continues from. -/
+theorem C13_checker_position (o : Options) (ext : Externals) (hext : ext.CDIFramed) (s : Spec) (a : Adjustment)
+    (hf : o.filterAnnotations = none) (chk : Spec → Except Unit Spec) (hc : o.checkResources = some chk)
+    (r : LinuxResources) (hr : a.resources = some r) :
+    adjustWith o ext s a =
+      (match adjustPre ext s a with
+       | .error e => .error (.gen e)
+       | .ok s1 =>
+         match chk s1 with
+         | .error _ => .error .resourceCheck
+         | .ok s2 => liftGen (adjustPost ext s2 a)) ∧
+    (∀ s1, adjustPre ext s a = .ok s1 → checkerSees o ext s a = some s1 ∧
+      s1.cpu = Resources.cpuAfter s.cpu (some r) ∧ s1.memory = Resources.memoryAfter s.memory (some r) ∧
+      s1.hugepages = Resources.hugepagesAfter s.hugepages (some r) ∧
+      s1.unified = Resources.unifiedAfter s.unified (some r) ∧ s1.pids = Resources.pidsAfter s.pids (some r)) := by
+  refine ⟨adjustWith_check o ext s a hf chk hc r hr, fun s1 hpre => ⟨checkerSees_eq o ext s a hf chk hc r hr s1 hpre, ?_⟩⟩
+  unfold adjustPre at hpre
+  simp only [bind, Except.bind, pure, Except.pure] at hpre
+  split at hpre
+  · cases hpre
+  rename_i s0 h0
+  cases hpre
+  rw [pre_fields] at h0
+  have e0 := injectCDI_framed hext h0
+  rw [mid_fields, adjustResources_fields, hr, e0]
+  exact ⟨rfl, rfl, rfl, rfl, rfl⟩
+
+/-- A checker that edits only `Linux.Resources` (all the Go callback is handed) cannot disturb
+    anything else: when `Adjust` succeeds with it, `Adjust` without it succeeds too and the two
+    results agree on every field outside the resources section — annotations, env, args, hooks,
+    rlimits, OOM score, mounts, devices, RDT, cgroups path, rootfs propagation, CDI — while the
+    CPU, memory, hugepage, unified, pids and device-rule fields are exactly what the checker
+    returned (block-I/O: what the checker returned unless the adjustment names a class). -/
+theorem C13_checker_frame (o : Options) (ext : Externals) (s : Spec) (a : Adjustment)
+    (hf : o.filterAnnotations = none) (chk : Spec → Except Unit Spec) (hc : o.checkResources = some chk)
+    (hro : ResourceOnly chk) (r : LinuxResources) (hr : a.resources = some r) {res : Spec}
+    (h : adjustWith o ext s a = .ok res) :
+    ∃ s1 s2 res0, adjustPre ext s a = .ok s1 ∧ chk s1 = .ok s2 ∧ adjust ext s a = .ok res0 ∧
+      blankResources res = blankResources res0 ∧
+      res.cpu = s2.cpu ∧ res.memory = s2.memory ∧ res.hugepages = s2.hugepages ∧
+      res.unified = s2.unified ∧ res.pids = s2.pids ∧ res.devRules = s2.devRules ∧
+      Resources.applyBlockIO ext.resolveBlockIO s2.blockio a.blockioClass = .ok res.blockio := by
+  rw [adjustWith_check o ext s a hf chk hc r hr] at h
+  cases hpre : adjustPre ext s a with
+  | error e => rw [hpre] at h; cases h
+  | ok s1 =>
+    rw [hpre] at h
+    simp only [] at h
+    cases hchk : chk s1 with
+    | error e => rw [hchk] at h; cases h
+    | ok s2 =>
+      rw [hchk] at h
+      simp only [] at h
+      have hpost : adjustPost ext s2 a = .ok res := by
+        cases hp : adjustPost ext s2 a with
+        | error e => rw [hp] at h; cases h
+        | ok x => rw [hp] at h; cases h; rfl
+      obtain ⟨t', ht', hb⟩ := (adjustPost_blank ext a (hro s1 s2 hchk)).2 res hpost
+      obtain ⟨c1, c2, c3, c4, c5, c6, c7⟩ := adjustPost_resources ext a hpost
+      refine ⟨s1, s2, t', rfl, hchk, ?_, hb, c1, c2, c3, c4, c5, c6, c7⟩
+      rw [adjust_eq_pre_post, hpre]
+      exact ht'
+
+/-- … and it introduces no failure of its own kind other than its own refusal: an error of
+    `Adjust` that is not the checker's is the error `Adjust` without the checker gives. -/
+theorem C13_checker_no_new_errors (o : Options) (ext : Externals) (s : Spec) (a : Adjustment)
+    (hf : o.filterAnnotations = none) (chk : Spec → Except Unit Spec) (hc : o.checkResources = some chk)
+    (hro : ResourceOnly chk) (r : LinuxResources) (hr : a.resources = some r) {e : GenError}
+    (h : adjustWith o ext s a = .error (.gen e)) :
+    adjust ext s a = .error e := by
+  rw [adjustWith_check o ext s a hf chk hc r hr] at h
+  rw [adjust_eq_pre_post]
+  cases hpre : adjustPre ext s a with
+  | error e' => rw [hpre] at h; cases h; rfl
+  | ok s1 =>
+    rw [hpre] at h
+    simp only [] at h
+    cases hchk : chk s1 with
+    | error e' => rw [hchk] at h; cases h
+    | ok s2 =>
+      rw [hchk] at h
+      simp only [] at h
+      have hpost : adjustPost ext s2 a = .error e := by
+        cases hp : adjustPost ext s2 a with
+        | error e' => rw [hp] at h; cases h; rfl
+        | ok x => rw [hp] at h; cases h
+      exact (adjustPost_blank ext a (hro s1 s2 hchk)).1 e hpost
+
+/-- Non-vacuity: a filter that drops `internal/…` keys and a checker that caps CPU shares at 512,
+    on an adjustment that sets an allowed and a dropped annotation, shares 2048 and a mount. -/
+def exFilter : AList Str Str → Except Unit (AList Str Str) :=
+  fun l => .ok (l.filter fun e => !(str "internal/").isPrefixOf e.1)
+def exChecker : Spec → Except Unit Spec :=
+  fun s => .ok { s with cpu := { s.cpu with shares := s.cpu.shares.map (fun v => min v 512) } }
+
+example : ResourceOnly exChecker := by
+  intro s s' h; cases h; rfl
+
+example :
+    (adjustWith { filterAnnotations := some exFilter, checkResources := some exChecker } {} {}
+      { annotations := [(str "internal/x", str "1"), (str "ok", str "2")],
+        mounts := [{ destination := str "/m" }],
+        linux := some { resources := some { cpu := some { shares := some 2048 } } } }).toOption.map
+      (fun r => (r.annotations, r.cpu.shares, r.mounts.map (·.destination)))
+    = some ([(str "ok", str "2")], some 512, [str "/m"]) := by decide
 
 /-- The code before /repo 6eaf34c (removals before additions): `[FOO=new, -FOO]` on a spec with `FOO`
     removes `FOO`; the repaired code keeps the set. -/
